@@ -36,6 +36,13 @@ def nonnull_at(f, n):
                     for x in walk(src):
                         if x.get('k') == 'Ref' and x.get('dk') == 'parm':
                             out.add(x['n'])
+    # a lambda body sees the parameters/locals of the enclosing function it captures: those that are never re-assigned have the nullness
+    # they had where the lambda expression was created
+    lam = f.enclosing_lambda(n)
+    if lam is not None:
+        from engines import _reassigned
+        outer = nonnull_at(f, lam) or set()
+        out |= {q for q in outer if q and q.replace('_', 'a').isalnum() and not _reassigned(f, q)}
     return out
 
 
@@ -52,8 +59,6 @@ class NullSummaries:
             return res
         for n in f.walk():
             if n.get('k') == 'Call' and n.get('opc') in ('->', '*') and n['c'][0].get('k') == 'Ref' and n['c'][0].get('d') in pp and n['c'][0].get('dk') == 'parm':
-                if f.enclosing_lambda(n) is not None:
-                    continue
                 nn = nonnull_at(f, n)
                 if nn is None:
                     continue
@@ -80,8 +85,6 @@ class NullSummaries:
                     continue
                 for n in f.walk():
                     if n.get('k') not in ('Call', 'Construct') or n.get('opc'):
-                        continue
-                    if f.enclosing_lambda(n) is not None:
                         continue
                     for ck in F.callee_keys(n):
                         us = self.unsafe.get(ck)
